@@ -42,12 +42,15 @@ func init() {
 			"in a quarter of the requests that have one the authentication writer is installed as Runtime.DefaultAuthentication instead of ClientOperation.AuthInfo; a third of the writers also read GetMethod, GetPath, GetBodyParam and GetFileParam before and after their GetBody calls (half of those on a pattern /things/{id} with values that need escaping); " +
 			"an eighth of the JSON/XML values have no encoding (the producer refuses them), half of the ReadCloser payloads fail on Close: such a request must fail or else be sent like any other; a request without payload carries no Content-Type. " +
 			"a sixth of the value payloads, and a sweep over every media type with a producer x GetBody 0/1/3 times or no auth writer, are pointers (*struct, *string, *map) and typed-nil pointers (a nil *struct, *string, *map, *[]byte, *[][]string held in the interface): what the producer writes for them into a plain buffer is what must be sent and shown, and what it refuses must make the request fail. " +
+			"per shard 60 (600) value requests are made after 1-2 others on the same Runtime for the same media type under the same spelling (as registered; a variant with parameters or upper-case letters that is a key of Producers; one that is not; a vendor type the caller registers), the producer registered for that type (the standard one, or one of two of the caller's own that mark what they write) being replaced between the requests, also at random in the mixes: the body is the encoding of the producer registered when the request is made. " +
+			"per shard 60 (600) upload requests, and a fifth of those of the mixes, have a params writer that calls SetFileParam twice for one field, the second call listing some of the same values again and dropping 0-2 others; the values are pointers (*upload, *os.File, runtime.NamedReader) and comparable structs (around a harness source, around a real *os.File, with and without ContentType): every file of the final list arrives in full, exactly once, a dropped one is not sent and is closed; a harness source that is closed has nothing more to read, like a file. " +
 			"non-trivial = every judged request; distinct by (payload kind, media type, value kind, #fields, file name/kind/length/chunking/declared type, GetBody count)",
 		Assumptions: []string{
 			"the expected encoding of a value is what the registered producer writes for it into a plain buffer (differential: the transport must not alter, truncate or re-encode it)",
 			"multipart parts of different fields may come in any order (fields and files are kept in maps); every value and file must appear exactly once; the values of one field and the files of one field are lists: they are sent in the order in which they were given to SetFormParam / SetFileParam (urlencoded bodies likewise, per field)",
 			"a file whose reader returns an error other than io.EOF has no full content to send: the request must not be reported as sent (Submit fails, or the transport is given a body whose Read fails)",
-			"the Runtime is configured for each request (transport, default media type, debug flag); what was submitted on it before does not enter the expectation",
+			"the Runtime is configured for each request (transport, default media type, debug flag, the producers registered: by assignments to the Runtime's own Producers map); what was submitted on it before does not enter the expectation: the producer of the chosen media type is the one registered when the request is made",
+			"the files of a field are the ones given to the last SetFileParam call for it, whatever an earlier call had listed; the files an earlier call listed and the last one does not are the request's to close (nobody else holds them); upload values that cannot be compared (a struct holding a slice) are not generated",
 			"the type sniffed from content is http.DetectContentType of its first min(512, len) bytes (the function's documented window)",
 			"the content of an upload is what its reader has to offer from the position at which it is handed over",
 			"the media type that describes a reader payload is the one chosen for the operation, whatever Content-Type the params writer had put in the header parameters and whatever the method",
@@ -90,10 +93,34 @@ type FileSpec struct {
 	// *os.File (a file called Name in a scratch directory, holding Offset other bytes and then the content,
 	// positioned at Offset); "named-bytes-reader" = runtime.NamedReader(Name, *bytes.Reader) and
 	// "named-plain-reader" = runtime.NamedReader(Name, <a value with a Read method only>).
+	// "struct-os-file" = a comparable struct VALUE around a real *os.File (the idiom of the library's own test for an
+	// upload that declares its type): with Declared it has a ContentType method, without it has none.
 	Source string `json:"source,omitempty"`
+	// Early: the params writer had listed this very value already in an earlier SetFileParam call for its field
+	// (a decorating writer that reads GetFileParam and sets the field again with more files; attachments added one
+	// by one with the growing list). The file belongs to the final set like any other.
+	Early bool `json:"setEarlier,omitempty"`
+}
+
+// structValued: what is handed to SetFileParam for the file is a (comparable) struct value, not a pointer.
+func (fs *FileSpec) structValued() bool {
+	switch {
+	case fs.Source == "struct-os-file":
+		return true
+	case fs.Source != "":
+		return false
+	case fs.Declared != "":
+		return true
+	case fs.Renamed != "":
+		return false
+	}
+	return fs.Seekable
 }
 
 var errUploadSource = errors.New("c11: the upload source failed")
+
+// a harness source behaves like a file: once it is closed there is nothing to read from it any more
+var errClosedSource = errors.New("c11: read of an upload source that has been closed")
 
 func (fs *FileSpec) failing() bool { return fs.Fails && fs.FailAt < fs.Len }
 
@@ -139,6 +166,54 @@ type Case struct {
 	// BodyCloseErr: the Close of a readcloser payload returns an error. Such a request may fail; when it is
 	// reported as sent, what is sent is judged like any other.
 	BodyCloseErr bool `json:"bodyCloseErr,omitempty"`
+	// Producer: "" = when this request is made, the producer the Runtime came with is the one registered for
+	// MediaType; otherwise the caller has put a producer of its own there (Producers[MediaType] = p) before this
+	// request: p writes the line "<<Producer>>" and then what the standard producer writes (the JSON producer for a
+	// media type the Runtime comes without). The registration is made anew for every request of a sequence (Prior),
+	// so that the producer registered for a media type can change between two requests on one Runtime.
+	Producer string `json:"producer,omitempty"`
+	// VariantNotKey: the Variant spelling is what the operation offers, and it is NOT a key of Producers: the
+	// producer is registered under MediaType only.
+	VariantNotKey bool `json:"variantNotRegistered,omitempty"`
+	// Replaced: files that the params writer lists in a first SetFileParam call for their field (after the Early
+	// files of Files for that field) and not in the second, final one (which lists the field's files of Files). They
+	// are not part of the request: they must not be sent, and they are closed. Ignored for a field without final files.
+	Replaced []FileSpec `json:"replacedFiles,omitempty"`
+}
+
+// callerProducer is a producer that the caller registers in place of the one the Runtime came with.
+type callerProducer struct {
+	tag   string
+	inner rt.Producer
+}
+
+func (p callerProducer) Produce(w io.Writer, v interface{}) error {
+	if _, err := io.WriteString(w, "<<"+p.tag+">>\n"); err != nil {
+		return err
+	}
+	return p.inner.Produce(w, v)
+}
+
+// fileValue and typedFileValue are comparable struct values around an open file.
+type fileValue struct{ rt.NamedReadCloser }
+
+type typedFileValue struct {
+	rt.NamedReadCloser
+	contentType string
+}
+
+func (t typedFileValue) ContentType() string { return t.contentType }
+
+func (c *Case) twoSteps() bool {
+	if len(c.Replaced) > 0 {
+		return true
+	}
+	for i := range c.Files {
+		if c.Files[i].Early {
+			return true
+		}
+	}
+	return false
 }
 
 var errPayloadClose = errors.New("c11: the payload's Close failed")
@@ -201,6 +276,9 @@ func newUpload(fs FileSpec) *upload {
 
 func (u *upload) Name() string { return u.spec.Name }
 func (u *upload) Read(p []byte) (int, error) {
+	if atomic.LoadInt32(&u.closed) > 0 {
+		return 0, errClosedSource
+	}
 	if u.pos >= len(u.all) {
 		return 0, io.EOF
 	}
@@ -397,7 +475,11 @@ var producerKinds = map[string][]string{
 	"text/html":                {"string"},
 	"text/csv":                 {"records"},
 	"application/octet-stream": {"string", "bytes"},
+	vendorType:                 {"map", "struct", "string"},
 }
+
+// vendorType is a media type the Runtime comes without a producer for: the caller registers one.
+const vendorType = "application/vnd.acme+json"
 
 // chosen is the media type the operation means to be chosen, as offered.
 func (c *Case) chosen() string {
@@ -518,7 +600,17 @@ var strippers = []func(*Case) bool{
 	func(c *Case) bool { had := c.BodyCloseErr; c.BodyCloseErr = false; return had },
 	func(c *Case) bool { had := c.BodyChunk > 0 || c.BodyEOF; c.BodyChunk, c.BodyEOF = 0, false; return had },
 	func(c *Case) bool { had := c.Consumes != ""; c.Consumes, c.Other = "", ""; return had },
-	func(c *Case) bool { had := c.Variant != ""; c.Variant = ""; return had },
+	func(c *Case) bool { had := c.VariantNotKey; c.VariantNotKey = false; return had },
+	func(c *Case) bool { had := c.Variant != ""; c.Variant, c.VariantNotKey = "", false; return had },
+	func(c *Case) bool { had := c.Producer != ""; c.Producer = ""; return had },
+	func(c *Case) bool {
+		had := c.twoSteps()
+		c.Replaced = nil
+		for i := range c.Files {
+			c.Files[i].Early = false
+		}
+		return had
+	},
 	func(c *Case) bool { had := c.PresetCT != ""; c.PresetCT = ""; return had },
 	func(c *Case) bool {
 		switch c.Method {
@@ -563,17 +655,56 @@ func evalCase(c *Case, class func(string)) *verdict {
 
 type switchTransport struct{ to *capture }
 
+// replacedSource is a file that an earlier SetFileParam call listed and the final one does not.
+type replacedSource struct {
+	spec FileSpec
+	read *upload
+	file *os.File
+}
+
+func (rp *replacedSource) isClosed() bool {
+	if rp.file != nil {
+		_, err := rp.file.Seek(0, io.SeekCurrent)
+		return errors.Is(err, os.ErrClosed)
+	}
+	return atomic.LoadInt32(&rp.read.closed) > 0
+}
+
 func (s *switchTransport) RoundTrip(r *http.Request) (*http.Response, error) {
 	return s.to.RoundTrip(r)
 }
 
 // submitOn submits one case on the given Runtime, configured for it, with a transport of its own, and
 // judges what that transport was given.
-func submitOn(r *client.Runtime, sw *switchTransport, producers map[string]rt.Producer, defaultMT string, c *Case, class func(string)) *verdict {
+func submitOn(r *client.Runtime, sw *switchTransport, standard map[string]rt.Producer, defaultMT string, c *Case, class func(string)) *verdict {
 	cap := &capture{}
 	sw.to = cap
-	if c.Variant != "" {
+	// the caller's registrations for this request, made on the Runtime's own map: the standard producers, the
+	// caller's own producer for MediaType if it has one, the variant spelling as a further key unless it is not one.
+	// producers is what is registered when the request is made, kept aside for the expectation.
+	producers := map[string]rt.Producer{}
+	for k := range r.Producers {
+		if _, ok := standard[k]; !ok {
+			delete(r.Producers, k)
+		}
+	}
+	for k, v := range standard {
+		r.Producers[k], producers[k] = v, v
+	}
+	if c.Producer != "" {
+		inner := standard[c.MediaType]
+		if inner == nil {
+			inner = rt.JSONProducer()
+		}
+		p := callerProducer{tag: c.Producer, inner: inner}
+		r.Producers[c.MediaType], producers[c.MediaType] = p, p
+		class("producer-registered-by-the-caller")
+	}
+	if c.Variant != "" && !c.VariantNotKey {
 		r.Producers[c.Variant] = producers[c.MediaType]
+	}
+	if c.Variant != "" && c.VariantNotKey {
+		class("media-type-variant/not-a-key-of-Producers")
 	}
 	consumes, viaDefault := c.consumes()
 	r.DefaultMediaType = defaultMT
@@ -598,6 +729,14 @@ func submitOn(r *client.Runtime, sw *switchTransport, producers map[string]rt.Pr
 	var sawViews []authView
 	var payloadObj interface{} // the very object handed to SetBodyParam
 	var scratchErr error       // a failure of the harness's own scratch files: nothing of the library's
+	var replaced []replacedSource
+	defer func() {
+		for _, rp := range replaced { // whatever the library did with them, nothing stays open
+			if rp.file != nil {
+				rp.file.Close()
+			}
+		}
+	}()
 	pattern := "/things"
 	if c.PathValue != "" {
 		pattern = "/things/{id}"
@@ -646,50 +785,87 @@ func submitOn(r *client.Runtime, sw *switchTransport, producers map[string]rt.Pr
 			_ = req.SetFormParam(k, append([]string(nil), v...)...)
 		}
 		byField := map[string][]rt.NamedReadCloser{}
+		first := map[string][]rt.NamedReadCloser{} // what an earlier SetFileParam call for the field lists
 		var order []string
-		for _, fs := range c.Files {
+		var made []rt.NamedReadCloser
+		nsrc := 0
+		// source makes what is handed to SetFileParam for a file; read is the upload the bytes are read from, file
+		// the real file of an os-file source
+		source := func(fs FileSpec) (src rt.NamedReadCloser, read *upload, file *os.File, err error) {
 			u := newUpload(fs)
-			uploads = append(uploads, u)
-			if _, ok := byField[fs.Field]; !ok {
-				order = append(order, fs.Field)
-			}
+			nsrc++
 			if fs.Source != "" {
 				class(fmt.Sprintf("upload-source/%s/at-offset=%v", fs.Source, fs.Offset > 0))
 			}
 			switch {
-			case fs.Source == "os-file":
-				f, err := scratchFile(&scratch, len(uploads), fs.Name, u.all, u.pos)
+			case fs.Source == "os-file" || fs.Source == "struct-os-file":
+				f, err := scratchFile(&scratch, nsrc, fs.Name, u.all, u.pos)
 				if err != nil {
-					// the harness could not make its own scratch file (full or refusing file system): the request is
-					// abandoned and nothing is judged
-					scratchErr = err
-					for _, l := range byField {
-						for _, src := range l {
-							src.Close()
-						}
-					}
-					return fmt.Errorf("c11 harness: scratch file: %w", err)
+					return nil, nil, nil, err
 				}
-				byField[fs.Field] = append(byField[fs.Field], f)
+				switch {
+				case fs.Source == "os-file":
+					return f, u, f, nil
+				case fs.Declared != "":
+					return typedFileValue{f, fs.Declared}, u, f, nil
+				}
+				return fileValue{f}, u, f, nil
 			case fs.Source == "named-bytes-reader":
-				byField[fs.Field] = append(byField[fs.Field], rt.NamedReader(fs.Name, bytes.NewReader(append([]byte(nil), u.data...))))
+				return rt.NamedReader(fs.Name, bytes.NewReader(append([]byte(nil), u.data...))), u, nil, nil
 			case fs.Source == "named-plain-reader":
-				byField[fs.Field] = append(byField[fs.Field], rt.NamedReader(fs.Name, onlyReader{bytes.NewReader(append([]byte(nil), u.data...))}))
+				return rt.NamedReader(fs.Name, onlyReader{bytes.NewReader(append([]byte(nil), u.data...))}), u, nil, nil
 			case fs.Declared != "":
-				byField[fs.Field] = append(byField[fs.Field], typedUpload{u})
+				return typedUpload{u}, u, nil, nil
 			case fs.Renamed != "":
 				inner := *u
 				inner.spec.Name = fs.Renamed
-				wrapped := rt.NamedReader(fs.Name, &inner)
-				uploads[len(uploads)-1] = &inner // the bytes are read from the inner source
-				byField[fs.Field] = append(byField[fs.Field], wrapped)
+				return rt.NamedReader(fs.Name, &inner), &inner, nil, nil // the bytes are read from the inner source
 			case fs.Seekable:
-				byField[fs.Field] = append(byField[fs.Field], seekUpload{u})
-			default:
-				byField[fs.Field] = append(byField[fs.Field], u)
+				return seekUpload{u}, u, nil, nil
+			}
+			return u, u, nil, nil
+		}
+		giveUp := func(err error) error {
+			// the harness could not make its own scratch file (full or refusing file system): the request is
+			// abandoned and nothing is judged
+			scratchErr = err
+			for _, src := range made {
+				src.Close()
+			}
+			return fmt.Errorf("c11 harness: scratch file: %w", err)
+		}
+		for _, fs := range c.Files {
+			src, u, _, err := source(fs)
+			if err != nil {
+				return giveUp(err)
+			}
+			made = append(made, src)
+			uploads = append(uploads, u)
+			if _, ok := byField[fs.Field]; !ok {
+				order = append(order, fs.Field)
+			}
+			byField[fs.Field] = append(byField[fs.Field], src)
+			if fs.Early {
+				first[fs.Field] = append(first[fs.Field], src)
 			}
 		}
+		for _, fs := range c.Replaced {
+			if _, ok := byField[fs.Field]; !ok {
+				continue
+			}
+			src, u, f, err := source(fs)
+			if err != nil {
+				return giveUp(err)
+			}
+			made = append(made, src)
+			replaced = append(replaced, replacedSource{spec: fs, read: u, file: f})
+			first[fs.Field] = append(first[fs.Field], src)
+		}
 		for _, f := range order {
+			if len(first[f]) > 0 {
+				_ = req.SetFileParam(f, first[f]...)
+				class("files-of-a-field-set-twice")
+			}
 			_ = req.SetFileParam(f, byField[f]...)
 		}
 		return nil
@@ -827,6 +1003,20 @@ func submitOn(r *client.Runtime, sw *switchTransport, producers map[string]rt.Pr
 	}
 	if len(sawViews) > 0 {
 		class("auth-views-agree-with-what-is-sent")
+	}
+	// the files that the params writer has replaced by setting their field again are not part of the request: nobody
+	// but the request, which was given them, can close them
+	for _, rp := range replaced {
+		if !rp.isClosed() {
+			kind := "pointer-valued"
+			if rp.spec.structValued() {
+				kind = "struct-valued"
+			}
+			return &verdict{"replaced-file-not-closed/" + kind, fmt.Sprintf("the file %q of field %q, listed by the first SetFileParam call and not by the second, is still open after the request was sent ; %s", rp.spec.Name, rp.spec.Field, c.describe())}
+		}
+	}
+	if len(replaced) > 0 {
+		class("replaced-files-closed")
 	}
 	hasForm := len(c.Fields) > 0 || len(c.Files) > 0
 	base, first, offered := c.labelled(ct)
@@ -1223,6 +1413,24 @@ func (c *Case) decorations() string {
 			break
 		}
 	}
+	if c.Variant != "" && c.VariantNotKey {
+		f += "/variant-not-a-key-of-producers"
+	}
+	if c.Producer != "" {
+		f += "/producer-registered-by-the-caller"
+	}
+	if c.twoSteps() {
+		kept := ""
+		for i := range c.Files {
+			if c.Files[i].Early && c.Files[i].structValued() {
+				kept = "/keeping-a-struct-valued-file"
+				break
+			} else if c.Files[i].Early {
+				kept = "/keeping-a-pointer-valued-file"
+			}
+		}
+		f += "/files-of-a-field-set-twice" + kept
+	}
 	if len(c.Prior) > 0 {
 		f += "/after-other-requests-on-the-runtime"
 	}
@@ -1284,11 +1492,19 @@ func genFiles(r *rand.Rand, n int, lenPick func() int) []FileSpec {
 		case 5:
 			// what generated clients hand over: a real *os.File, at its start or partly read; or a plain
 			// reader given a name
-			switch r.Intn(4) {
+			switch r.Intn(5) {
 			case 0, 1:
 				fs.Source = "os-file"
 				fs.Seekable = true
 				fs.Offset = []int{0, 0, 1, 300, 512, 600}[r.Intn(6)]
+			case 4:
+				// a struct value around the open file, with or without a declared type
+				fs.Source = "struct-os-file"
+				fs.Seekable = true
+				fs.Offset = []int{0, 0, 300}[r.Intn(3)]
+				if r.Intn(2) == 0 {
+					fs.Declared = []string{"text/csv", "image/png", "application/vnd.x+json;  v=1"}[r.Intn(3)]
+				}
 			case 2:
 				fs.Source = "named-bytes-reader"
 			default:
@@ -1409,6 +1625,31 @@ func run(m *mon.M) {
 			}
 		}
 	}
+	// (5) the producer registered for a media type is replaced between the requests made on one Runtime, the media
+	// type being offered as registered or in a variant spelling that is, or is not, a key of Producers
+	for i, n := 0, m.N(60, 600); i < n; i++ {
+		c := genProducerHistory(r)
+		m.Begin(c)
+		runCase(m, c)
+	}
+	// (6) params writers that set the files of a field twice, the second call listing some of the same values again:
+	// pointer-valued and struct-valued sources, kept and replaced
+	for i, n := 0, m.N(60, 600); i < n; i++ {
+		c := &Case{Method: "POST", MediaType: "multipart/form-data", Payload: "none", GetBody: getBodies[r.Intn(4)]}
+		c.Files = genFiles(r, 1+r.Intn(3), func() int { return []int{0, 3, 400, 512, 900, 3000, 40000}[r.Intn(7)] })
+		if r.Intn(2) == 0 {
+			for j := range c.Files {
+				c.Files[j].Field = c.Files[0].Field
+			}
+		}
+		if r.Intn(3) == 0 {
+			c.Fields = genFields(r)
+		}
+		setTwice(r, c)
+		decorateAuth(r, c)
+		m.Begin(c)
+		runCase(m, c)
+	}
 }
 
 var mixTypes = []string{"application/json", "application/xml", "application/x-yaml", "text/plain", "text/html", "text/csv", "application/octet-stream", "multipart/form-data", "application/x-www-form-urlencoded"}
@@ -1513,8 +1754,10 @@ var (
 		"text/plain":               {"text/plain; charset=utf-8", "TEXT/plain"},
 		"application/xml":          {"application/xml; charset=utf-8"},
 		"application/octet-stream": {"application/octet-stream; type=x"},
+		vendorType:                 {vendorType + "; version=1", "Application/vnd.ACME+json"},
 	}
-	shapes = []string{"empty-first", "none", "all-empty", "then-other", "empty-then-two"}
+	callerProducers = []string{"envelope-1", "envelope-2"}
+	shapes          = []string{"empty-first", "none", "all-empty", "then-other", "empty-then-two"}
 )
 
 // decorate varies what surrounds the payload: the method, a Content-Type preset by the params writer, the
@@ -1531,7 +1774,14 @@ func decorate(r *rand.Rand, c *Case) {
 	if !hasForm && c.Payload != "none" && r.Intn(8) == 0 {
 		if vs := variantsOf[c.MediaType]; len(vs) > 0 {
 			c.Variant = vs[r.Intn(len(vs))]
+			c.VariantNotKey = r.Intn(2) == 0
 		}
+	}
+	if !hasForm && c.Payload == "value" && r.Intn(8) == 0 {
+		c.Producer = callerProducers[r.Intn(len(callerProducers))]
+	}
+	if len(c.Files) > 0 && r.Intn(5) == 0 {
+		setTwice(r, c)
 	}
 	if r.Intn(4) == 0 {
 		c.Consumes = shapes[r.Intn(len(shapes))]
@@ -1553,6 +1803,77 @@ func decorate(r *rand.Rand, c *Case) {
 	if c.Payload == "readcloser" && r.Intn(2) == 0 {
 		c.BodyCloseErr = true
 	}
+}
+
+// setTwice makes the params writer set the files of one field in two steps: the first call lists some of the
+// field's files (the same values again in the second call) and up to two files that the second call drops.
+func setTwice(r *rand.Rand, c *Case) {
+	field := c.Files[r.Intn(len(c.Files))].Field
+	n := 0
+	for i := range c.Files {
+		if c.Files[i].Field == field && r.Intn(3) != 0 {
+			c.Files[i].Early = true
+			n++
+		}
+	}
+	nr := r.Intn(3)
+	if n == 0 && nr == 0 {
+		nr = 1
+	}
+	for _, fs := range genFiles(r, nr, func() int { return []int{0, 3, 400, 512, 900, 3000}[r.Intn(6)] }) {
+		fs.Field = field
+		if fs.Source == "named-bytes-reader" || fs.Source == "named-plain-reader" { // nothing to observe a Close on
+			fs.Source = ""
+		}
+		fs.Renamed = ""
+		c.Replaced = append(c.Replaced, fs)
+	}
+}
+
+// genProducerHistory gives a value request made after one or two others on the same Runtime, all for one media
+// type under one spelling (as registered; a variant that is a key of Producers; a variant that is not), the
+// producer registered for the media type being another one for each request than for the one before.
+func genProducerHistory(r *rand.Rand) *Case {
+	mt := []string{"application/json", "application/json", "text/plain", "application/xml", "application/octet-stream", vendorType}[r.Intn(6)]
+	c := &Case{Method: []string{"POST", "PUT", "PATCH"}[r.Intn(3)], MediaType: mt, Payload: "value"}
+	if r.Intn(5) != 0 {
+		vs := variantsOf[mt]
+		c.Variant = vs[r.Intn(len(vs))]
+		c.VariantNotKey = r.Intn(4) != 0
+	}
+	switch r.Intn(6) {
+	case 0:
+		c.Consumes = "empty-first"
+	case 1:
+		c.Consumes = []string{"none", "all-empty"}[r.Intn(2)]
+	}
+	regs := []string{"", callerProducers[0], callerProducers[1]}
+	if mt == vendorType {
+		regs = regs[1:]
+	}
+	np := 1 + r.Intn(2)
+	seq := make([]string, np+1)
+	for i := range seq {
+		seq[i] = regs[r.Intn(len(regs))]
+		for i > 0 && seq[i] == seq[i-1] {
+			seq[i] = regs[r.Intn(len(regs))]
+		}
+	}
+	one := func(reg string) Case {
+		q := *c
+		q.Producer = reg
+		ks := producerKinds[mt]
+		q.ValueKind = ks[r.Intn(len(ks))]
+		q.BodyLen = []int{0, 5, 40, 700}[r.Intn(4)]
+		q.GetBody = []int{-1, 0, 1, 3}[r.Intn(4)]
+		decorateAuth(r, &q)
+		return q
+	}
+	last := one(seq[np])
+	for _, reg := range seq[:np] {
+		last.Prior = append(last.Prior, one(reg))
+	}
+	return &last
 }
 
 var pathValues = []string{"7", "a b", "x/y", "\u00e9", "100%", "q?x=1", "{id}", "..", "a#b", "%2F"}
